@@ -142,6 +142,10 @@ func BytesN(label string, n int) []byte {
 // OpaqueBytes is a byte slice of length n whose content is irrelevant to the harness.
 func OpaqueBytes(n int) []byte { return make([]byte, n) }
 
+// Defined reports whether v is the value of a declared constant of the named type. In a native
+// replay the inputs come from a model that already satisfies it.
+func Defined(pkgPath, typeName string, v int64) bool { return true }
+
 func Choose(label string, n int) int {
 	v := int(num(label))
 	if v < 0 || v >= n {
